@@ -1,9 +1,11 @@
 (** Extraction of the robust engine (C18, C04): ExtrOcamlBasic only; numbers stay inductive. *)
 Require Extraction.
 Require Import ExtrOcamlBasic.
-From Carquet Require Import Reader.FooterModel Writer.Stdio Writer.CloseModel.
+From Carquet Require Import Reader.FooterModel Reader.PageBoundsModel Writer.Stdio Writer.CloseModel.
 Extraction Language OCaml.
 Extraction "extracted/robust_ext.ml"
   FooterModel.open_stage FooterModel.stage_code
   CloseModel.run CloseModel.w_init CloseModel.current_checks CloseModel.pinned_checks CloseModel.bytes_of
-  CloseModel.sink_failed Stdio.deliv Stdio.pend CloseModel.st.
+  CloseModel.sink_failed Stdio.deliv Stdio.pend CloseModel.st
+  PageBoundsModel.get_column PageBoundsModel.current_pchecks PageBoundsModel.pinned_pchecks PageBoundsModel.load
+  PageBoundsModel.mapped_data_page PageBoundsModel.dictionary_copy PageBoundsModel.walk PageBoundsModel.copy_out.
